@@ -498,15 +498,41 @@ theorem collectedTimes_of_sliders (E : EndTimeLaws F) (bs : List UInt8) (st : Be
   · exact collectObject_time_nonslider E m o (C14.decoded_stored bs st m h1 h2 o ho)
       (fun s hk => hsl ⟨s, hk⟩) b r hr p hpr
 
+/-- the end time `start + spans · dist / velocity` the encoder computes for every slider is within the parse limit — the
+residual "a slider whose duration is not finite (or too long)" in its plainest form. -/
+def SliderEndInLimit (m : Beatmap F P) : Prop :=
+  ∀ h ∈ m.hitObjects, ∀ s, h.kind = .slider s → ∀ dist, curveDist s = .ok dist →
+    InLimit (h.startTime + (Scalar.ofInt (s.repeatCount + 1) : F) * dist / s.velocity)
+
+/-- **in taiko and mania the slider residual is the end time alone**: there `collect_samples` takes from a slider only
+its end (and, in mania, its head) — no `slider_events`. -/
+theorem sliderTimes_taiko_mania (bs : List UInt8) (st : BeatmapState F P) (m : Beatmap F P)
+    (h1 : decodeBytes beatmapDecoder bs = .ok st) (h2 : st.finish = .ok m)
+    (hmode : m.general.mode = .taiko ∨ m.general.mode = .mania) (he : SliderEndInLimit m) : SliderTimesInLimit m := by
+  intro h hh s hk b r hr p hp
+  have hstart := (C14.decoded_stored bs st m h1 h2 h hh).1
+  unfold collectObject at hr
+  simp only [hk, bind, Except.bind] at hr
+  split at hr
+  · cases hr
+  · rename_i dist hd
+    have hend := he h hh s hk dist hd
+    rcases hmode with hm | hm
+    · simp only [hm, pure, Except.pure, Except.ok.injEq] at hr
+      subst hr
+      rw [(collectSample_mem hp).1]; exact hend
+    · simp only [hm, pure, Except.pure, Except.ok.injEq] at hr
+      subst hr
+      rcases List.mem_append.mp hp with hp | hp
+      · rw [(collectSample_mem hp).1]; exact hend
+      · rw [(collectSample_mem hp).1]; exact hstart
+
 end Collected
 
 /-! ## 3. sortedness, and 4. `RepTimingMap` of decoded maps -/
 
 section Main
 variable {F P : Type} [Scalar F] [Scalar P] [Cvt P F] [Trig F] [Trig P] {RF : F → Prop} {RP : P → Prop}
-
-theorem addSample_sorted' {cp : ControlPoints F} (h : C13.Sorted cp) (p : SamplePoint F) : C13.Sorted (cp.addSample p) :=
-  C13.add_sorted_sample h p
 
 theorem addCollected_sorted {cp : ControlPoints F} (h : C13.Sorted cp) (l : List (SamplePoint F)) :
     C13.Sorted (addCollected cp l) := by
@@ -670,6 +696,14 @@ theorem decoded_repTimingMap_of_sliders (N : C12.NanLaws F) (C : C12.TpClampLaws
     (m : Beatmap F P) (h1 : decodeBytes beatmapDecoder bs = .ok st) (h2 : st.finish = .ok m)
     (hs : SliderTimesInLimit m) : RepTimingMap RF m :=
   decoded_repTimingMap_partial N C K LR SV bs st m h1 h2 (collectedTimes_of_sliders E bs st m h1 h2 hs)
+
+/-- **decoded_repTimingMap_taiko_mania** — in taiko / mania the residual is `SliderEndInLimit` (plus `EndTimeLaws` for
+spinners and holds). -/
+theorem decoded_repTimingMap_taiko_mania (N : C12.NanLaws F) (C : C12.TpClampLaws F) (K : TimingConsts F)
+    (LR : DecodedInv.LimitRep RF) (SV : SvLaws F RF) (E : EndTimeLaws F) (bs : List UInt8) (st : BeatmapState F P)
+    (m : Beatmap F P) (h1 : decodeBytes beatmapDecoder bs = .ok st) (h2 : st.finish = .ok m)
+    (hmode : m.general.mode = .taiko ∨ m.general.mode = .mania) (he : SliderEndInLimit m) : RepTimingMap RF m :=
+  decoded_repTimingMap_of_sliders N C K LR SV E bs st m h1 h2 (sliderTimes_taiko_mania bs st m h1 h2 hmode he)
 
 end Main
 
